@@ -61,6 +61,7 @@ func (c *c16) counter(name string) *c16counter {
 
 // enter is called at the start of an instrumented deferred computation.
 func (c *c16) enter(k *c16counter) {
+	c.r.Gate("enter")
 	k.n++
 	if k.n > 1 {
 		c.r.Violate("run-twice", "deferred computation %s executed %d times", k.name, k.n)
@@ -226,6 +227,7 @@ func (c *c16) memo() {
 						c.overlap = true
 					}
 					v := get()
+					r.Gate("ret")
 					c.inEval--
 					if panics {
 						return
@@ -388,6 +390,7 @@ func (c *c16) buildEval(n *ev, path string) lazy.Eval[int] {
 		a := c.buildEval(n.kids[0], path+".0")
 		inst := 0
 		k := func(v int) lazy.Eval[int] {
+			c.r.Gate("cont")
 			inst++
 			return c.buildEval(n.kids[1], fmt.Sprintf("%s.1#%d", path, inst)).Map(func(w int) int { return (v*7 + w) % evMod })
 		}
@@ -449,6 +452,7 @@ func (c *c16) evalTree() {
 					} else {
 						v = lazy.Run(e)
 					}
+					r.Gate("ret")
 					c.inEval--
 					if v != want {
 						r.Violate("wrong-value", "Eval %s evaluated to %d, strict evaluation gives %d", sb.String(), v, want)
@@ -514,6 +518,7 @@ func (c *c16) listCells() {
 		ks := per("gen")
 		start := 0
 		gen := func(idx int) fp.Option[int] {
+			r.Gate("gen")
 			i := idx - start
 			if i < 0 || i > n {
 				r.Violate("generator-index", "generator called with index %d", idx)
@@ -536,24 +541,26 @@ func (c *c16) listCells() {
 	case 3:
 		ks := per("rel")
 		inf := list.Recurrence1(1, func(a int) int {
+			r.Gate("rel")
 			if a > n+1 {
 				return a + 1
 			}
 			return counted(ks[a], a+1)
 		})
-		l = c16Take(inf, n)
+		l = c16Take(r, inf, n)
 		for i := range want {
 			want[i] = 1 + i
 		}
 	case 4:
 		ks := per("rel")
 		inf := list.Recurrence2(0, 1, func(a, b int) int {
+			r.Gate("rel")
 			if b > n+1 {
 				return b + 1
 			}
 			return counted(ks[b], b+1)
 		})
-		l = c16Take(inf, n)
+		l = c16Take(r, inf, n)
 		for i := range want {
 			want[i] = i
 		}
@@ -568,6 +575,7 @@ func (c *c16) listCells() {
 	case 6:
 		ks := per("gen")
 		a := list.Generate(func(i int) fp.Option[int] {
+			r.Gate("gen")
 			if i >= n {
 				return fp.None[int]()
 			}
@@ -594,7 +602,8 @@ func (c *c16) listCells() {
 	default:
 		ks := per("pull")
 		i := 0
-		src := fp.MakeIterator(func() bool { return i < n }, func() int {
+		src := fp.MakeIterator(func() bool { r.Gate("hasNext"); return i < n }, func() int {
+			r.Gate("next")
 			if i >= n {
 				panic("next on empty source")
 			}
@@ -633,6 +642,7 @@ func (c *c16) listCells() {
 				for cur.NonEmpty() {
 					t.Yield("cell")
 					h, tl := cur.Unapply()
+					r.Gate("ret")
 					got = append(got, h)
 					cur = tl
 				}
@@ -643,8 +653,10 @@ func (c *c16) listCells() {
 					t.Yield("cell")
 					got[len(got)-1] = cur.Head() // repeated Head must not re-run anything
 					cur = cur.Tail()
+					r.Gate("ret")
 				}
 			}
+			r.Gate("ret")
 			c.inEval--
 			if fmt.Sprint(got) != fmt.Sprint(want) {
 				r.Violate("wrong-value", "%s: traversal saw %v, strict evaluation gives %v", names[kind], got, want)
@@ -654,14 +666,14 @@ func (c *c16) listCells() {
 	c.quiesce()
 }
 
-func c16Take(l fp.List[int], n int) fp.List[int] {
+func c16Take(r *sim.Run, l fp.List[int], n int) fp.List[int] {
 	i := 0
 	var mk func(cur fp.List[int], i int) fp.List[int]
 	mk = func(cur fp.List[int], i int) fp.List[int] {
 		if i >= n {
 			return list.Empty[int]()
 		}
-		return fp.MakeList(func() fp.Option[int] { return fp.Some(cur.Head()) }, func() fp.List[int] { return mk(cur.Tail(), i+1) })
+		return fp.MakeList(func() fp.Option[int] { r.Gate("take"); return fp.Some(cur.Head()) }, func() fp.List[int] { r.Gate("take"); return mk(cur.Tail(), i+1) })
 	}
 	return mk(l, i)
 }
